@@ -208,7 +208,11 @@ def cases(draw, painted=False, small=False):
         case["debug_log"] = True  # root logger at DEBUG during the run (API) / --log-level DEBUG (CLI)
     elif k == 1:
         case["fuse_twice"] = True  # the fused assemblies are asked for twice; the second answer is judged
-    elif k == 3:
+    if draw(st.integers(0, 3)) == 0:
+        case["omit_prefix_arg"] = True
+    if draw(st.integers(0, 2)) == 0:
+        case["t_format"] = draw(st.sampled_from(["int", "short"]))
+    if k == 3:
         # second curation round: the input is the AGP an earlier round wrote, its cut contigs carry the tag `Cut`
         for _n, rows in inp:
             for r in rows:
